@@ -839,7 +839,11 @@ impl World {
             },
         };
         let expect = add_ids(doc, true);
-        if arr_conf.is_empty() {
+        // C04 quantifies over documents whose tracked objects have unique identifiers (explicit or derived)
+        let well_formed = crate::gen::ids_unique(doc);
+        if !well_formed {
+            self.stat("update_with_duplicate_identifiers");
+        } else if arr_conf.is_empty() {
             if rd != json!({ "ok": expect }) {
                 fails.push(("C04", format!("read after update differs from the submitted document: got {} expected {}", js(&rd), js(&expect))));
                 if rd.get("panic").is_some() {
@@ -2570,7 +2574,10 @@ fn collect_objects(v: &Value, out: &mut Vec<(String, String)>) {
                 for (k, c) in o {
                     if !k.ends_with(FLAT) {
                         m.insert(k.clone(), c.clone());
-                    } else if !c.is_array() && !c.is_object() {
+                    } else if !c.is_array() && !c.is_object() && !c.is_null() {
+                        // (a flattened key that reads `null` marks an object shown elsewhere - an object that
+                        // concurrent edits placed under several owners appears exactly once: where it is shown
+                        // depends on the pending merge, not on the content of the owner)
                         m.insert(k.clone(), c.clone());
                     }
                 }
